@@ -244,6 +244,8 @@ class Cw(Engine):
                 return o
             if o == 'leaks=1':
                 return f'memory leaked after close/free (fmt={case.meta.get("fmt")} filter={case.meta.get("filter")})'
+            if 'stream=BAD' in o:
+                return 'the bytes accepted by the write callback are not a prefix of (data written ++ zero padding): ' + op[:60]
             if 'TAIL-CLOBBERED' in o:
                 return 'memory sink: bytes stored at or beyond *used: ' + op
             m = re.match(r'(\w+) (\S+) ev=(\d+) sz=(\S+) h=\d+ bad=(\d)', o)
